@@ -480,16 +480,13 @@ def check_high(c):
                 Z = teneva.func_gets_full(Ad, a, b, n + 3)
                 want = np.cos(j * np.arccos(tp))
             else:
-                v2 = 1.0 + 0.5 * t[:4] if False else None
                 y1 = nodes(a, b, 3)
                 w1 = 1.0 + 0.5 * y1
                 A = teneva.func_int([vals.reshape(1, n, 1), w1.reshape(1, 3, 1)])
-                coef = A[0][0, :, 0] * 1.0
                 X2 = np.stack([pts, np.full(len(pts), (a + b) / 2)], axis=1)
                 got = teneva.func_get(X2, A, a, b)
                 Z = ref.dense(teneva.func_gets(A, [n + 3, 3]))[:, 1] / (1.0 + 0.5 * (a + b) / 2)
                 want = np.cos(j * np.arccos(tp)) * (1.0 + 0.5 * (a + b) / 2)
-                coef = coef / np.abs(A[1]).max() * np.abs(A[1]).max()
         e_j = np.zeros(n)
         e_j[j] = 1.0
         if d == 1:
